@@ -49,7 +49,8 @@ def check(ix, rep):
         if want is None:
             continue
         if nf[0] == 'unknown':
-            raise AnalysisError('%s (%s): handler of %s is no longer in a summarised idiom (%s)' % (f.where, f.qual, nc.name, nf[1]))
+            rep.error('%s (%s): handler of %s is no longer in a summarised idiom (%s)' % (f.where, f.qual, nc.name, nf[1]))
+            continue
         decided += 1
         if nf == want:
             rep.ok('R-OPSUM', f.module.rel, f.qual, slot, '%s [%s]' % (opref.describe(nf), trail), f.node.lineno)
